@@ -721,7 +721,19 @@ func (helloEngine) Run(t *testing.T, batch string, tape *rt.Tape, runIdx uint64,
 		rec.Violations = append(rec.Violations, Violation{"C10", "panic", panicSignature(p), fmt.Sprintf("goroutine %s panicked: %s frames=%v", p.G, p.Value, p.Frames)})
 	}
 	if out.Deadlock {
-		rec.Violations = append(rec.Violations, Violation{"HARNESS", "deadlock", blockedSignature(out.Blocked, "harness."), fmt.Sprint(out.Blocked)})
+		// the engine goroutine stuck inside the SDK (ReadSchema or an operation on the accepted schema never returns)
+		// is the property's "total" clause; anything else is a harness matter
+		sdkStuck := ""
+		for _, b := range out.Blocked {
+			if strings.HasPrefix(b.Name, "main") && !strings.Contains(b.Name, "scriptserver") && (strings.HasPrefix(b.Func, "atp/") || strings.HasPrefix(b.Func, "schema/") || strings.HasPrefix(b.Wait, "parked:sync.")) {
+				sdkStuck = b.Func + " [" + b.Wait + "]"
+			}
+		}
+		if sdkStuck != "" {
+			rec.Violations = append(rec.Violations, Violation{"C10", "deadlock", "engine-side call never returns: " + stripOrdinal(sdkStuck), fmt.Sprintf("loading or using a schema received in a hello message (mutations %v) blocks for ever: %v", muts, out.Blocked)})
+		} else {
+			rec.Violations = append(rec.Violations, Violation{"HARNESS", "deadlock", blockedSignature(out.Blocked, "harness."), fmt.Sprint(out.Blocked)})
+		}
 	}
 	if len(rec.Violations) > 0 {
 		rec.Outcome = "violation"
